@@ -6,7 +6,7 @@ import lib
 DEFAULT_SWITCHES = {
     "CheckOrder": '"flag-table"', "ClearLoserRetries": "TRUE", "InsertOrder": '"value-key"', "SnapshotRecheck": "TRUE",
     "CopyLocksBuckets": "TRUE", "PublishBeforeFlagClear": "TRUE", "SizeTarget": '"modified"', "CopyRecounts": "TRUE",
-    "FnBeforeRetry": "FALSE", "BroadcastOnResizeEnd": "TRUE", "UnlockOnNewerTable": "TRUE", "ZeroOnAbsentDelete": "TRUE", "RangeSnapshotsTable": "TRUE", "LoadOnMissWaits": "FALSE",
+    "FnBeforeRetry": "FALSE", "BroadcastOnResizeEnd": "TRUE", "UnlockOnNewerTable": "TRUE", "ZeroOnAbsentDelete": "TRUE", "RangeSnapshotsTable": "TRUE", "LoadOnMissWaits": "FALSE", "ResizeRereadsTable": "TRUE", "CopySkipsEmptyBuckets": "FALSE", "ClearChecksCounter": "FALSE",
 }
 
 # alternative value of each switch and the families expected to refute it (vacuity guard + witness generator)
@@ -25,6 +25,9 @@ ALTERNATIVES = {
     "BroadcastOnResizeEnd=FALSE": ({"BroadcastOnResizeEnd": "FALSE"}, ["S8-two-growers", "S4-grow"]),
     "UnlockOnNewerTable=FALSE": ({"UnlockOnNewerTable": "FALSE"}, ["S4-grow", "S8-two-growers"]),
     "RangeSnapshotsTable=FALSE": ({"RangeSnapshotsTable": "FALSE"}, ["S15-range-grow", "S16-range-clear"]),
+    "ResizeRereadsTable=FALSE": ({"ResizeRereadsTable": "FALSE"}, ["S17-stale-shrink-vs-clear"]),
+    "CopySkipsEmptyBuckets=TRUE": ({"CopySkipsEmptyBuckets": "TRUE"}, ["S4c-grow-vs-insert-into-empty-bucket"]),
+    "ClearChecksCounter=TRUE": ({"ClearChecksCounter": "TRUE"}, ["S6b-clear-empty"]),
     "ZeroOnAbsentDelete=FALSE": ({"ZeroOnAbsentDelete": "FALSE"}, ["S13-compute-delete-absent"]),
 }
 
@@ -73,6 +76,13 @@ def families():
         {"t1": [C("Compute", "k1", "a", "toggle")], "t2": [C("Compute", "k1", "b", "toggle")], "t3": [C("Compute", "k1", "c", "setifabsent"), C("Load", "k1")]})
     fam("S13-compute-delete-absent", ["k1", "k2", "k3"], {"k1": 0, "k2": 0, "k3": 0}, {"k1": 1, "k2": 2, "k3": 3}, ["k1", "k2"],
         {"t1": [C("Compute", "k3", "a", "delret")], "t2": [C("Load", "k3")]})
+    fam("S17-stale-shrink-vs-clear", ["k1", "k2", "k3"], {"k1": 0, "k2": 1, "k3": 3}, {"k1": 1, "k2": 1, "k3": 1}, ["k1", "k2"],
+        {"t1": [C("Delete", "k1")], "t2": [C("Clear"), C("Store", "k3", "a")], "t3": [C("Load", "k3"), C("Load", "k2")]}, nb0=2, minnb=1, shrink=s2, maxgen=4)
+    g2 = "[n \\in 1..16 |-> IF n = 2 THEN 1 ELSE 100]"
+    fam("S4c-grow-vs-insert-into-empty-bucket", ["k1", "k2", "k3", "k4"], {"k1": 0, "k2": 0, "k3": 4, "k4": 1}, {"k1": 1, "k2": 2, "k3": 1, "k4": 1}, ["k1", "k2"],
+        {"t1": [C("Store", "k3", "a")], "t2": [C("Store", "k4", "b")], "t3": [C("Load", "k4")]}, nb0=2, minnb=2, grow=g2)
+    fam("S6b-clear-empty", ["k1"], {"k1": 0}, {"k1": 1}, [],
+        {"t1": [C("Store", "k1", "a")], "t2": [C("Load", "k1"), C("Clear"), C("Load", "k1")]}, nb0=1, minnb=1)
     fam("S14-range-writers", ["k1", "k2", "k3"], {"k1": 0, "k2": 0, "k3": 1}, {"k1": 1, "k2": 2, "k3": 1}, ["k1", "k3"],
         {"t1": [C("Range")], "t2": [C("Delete", "k1"), C("Store", "k1", "a")], "t3": [C("Store", "k2", "b")]}, nb0=2, minnb=2)
     fam("S15-range-grow", ["k1", "k2", "k3"], {"k1": 0, "k2": 1, "k3": 2}, {"k1": 1, "k2": 1, "k3": 1}, ["k1", "k2"],
